@@ -114,15 +114,17 @@ VARIANTS = {
 
 
 def cache_dir():
+    """Build cache of the CURRENT tree; the three most recently used trees are kept, older ones deleted."""
     h = tree_hash()
     d = os.path.join(CACHE, h)
     with Lock("gc"):
-        os.makedirs(CACHE, exist_ok=True)
-        for e in os.listdir(CACHE):
-            p = os.path.join(CACHE, e)
-            if os.path.isdir(p) and e != h and re.fullmatch(r"[0-9a-f]{16}", e):
-                shutil.rmtree(p, ignore_errors=True)
         os.makedirs(d, exist_ok=True)
+        os.utime(d, None)
+        trees = [os.path.join(CACHE, e) for e in os.listdir(CACHE)
+                 if os.path.isdir(os.path.join(CACHE, e)) and re.fullmatch(r"[0-9a-f]{16}", e)]
+        trees.sort(key=lambda p: os.path.getmtime(p), reverse=True)
+        for p in trees[3:]:
+            shutil.rmtree(p, ignore_errors=True)
     return d
 
 
